@@ -14,7 +14,8 @@ out = ["# Seeded changes", "",
 "was aimed at (`tools/seedprompts.py clause:a`); round 5 (`C??-r5-<name>`) did the same with a second set of clauses and a",
 "preference for sites two steps away (`clause:b`); round 6 (`C??-r6-<name>`) asked for changes presented as performance or",
 "resource optimisations (`optimise`: caches, pooled or reused buffers, narrowed critical sections, shared timers); round 7",
-"(`C??-r7-<name>`) for clean-ups of error handling and resource management (`cleanup`). A change that an agent of a later round made again is not stored twice;",
+"(`C??-r7-<name>`) for clean-ups of error handling and resource management (`cleanup`); round 8 (`C??-r8-<name>`) for",
+"changes to how work is ordered or shared between goroutines (`concurrency`). A change that an agent of a later round made again is not stored twice;",
 "`also_produced_for` in the meta.json of the stored one records it.", "",
 "Files: `patch.diff` (the change), `demo/` (the agent's demonstration test, to be copied over a worktree that has the",
 "patch applied), `meta.json` (summary, what the change needs to manifest, how it was verified, which check reports it).", "",
@@ -23,13 +24,29 @@ out = ["# Seeded changes", "",
 "| change | file changed | reported by | needed strengthening |", "|---|---|---|---|"]
 dirs = sorted(glob.glob('/verif/seeded/*/'))
 n = 0
+unreported = []
 for d in dirs:
     m = json.load(open(d + 'meta.json'))
+    if m.get('not_reported'):
+        unreported.append((os.path.basename(d.rstrip('/')), m))
+        continue
     missed = bool(m.get('missed_by_first_version_of_the_checks'))
     n += missed
     out.append("| %s | %s | %s | %s |" % (os.path.basename(d.rstrip('/')), ", ".join(m.get('files_changed', [])), m['caught_by'].replace("|", "\\|"), "yes" if missed else "no"))
-out += ["", "%d of %d changes were missed by the version of the checks that existed when the change arrived; each of those led to a" % (n, len(dirs)),
+out += ["", "%d of %d reported changes were missed by the version of the checks that existed when the change arrived; each of those led to a" % (n, len(dirs) - len(unreported)),
 "wider generator or a sharper oracle (described in DESIGN.md section 11), after which the change is reported and the",
 "unchanged tree stays silent.", ""]
+if unreported:
+    out += ["## Not reported", "",
+"These changes are valid (they break their property, the demonstration shows it) and no check reports them. Each needs one",
+"particular interleaving of two goroutines INSIDE the emulator - a window of a few instructions that the demonstration",
+"opens with a latch planted in the code under test (a wrapped lock, a blocking tracer, a log hook, a patched random source).",
+"The checks drive the emulator from outside; they order what processes and callers do and the twelve pause points, and",
+"none of those lies in these windows. Generated search without control of that schedule meets them only by luck (DESIGN.md",
+"section 7 and 11).", "",
+"| change | file changed | what it needs | why no check orders it |", "|---|---|---|---|"]
+    for name, m in unreported:
+        out.append("| %s | %s | %s | %s |" % (name, ", ".join(m.get('files_changed', [])), str(m.get('needs', '')).replace("|", "\\|").replace("\n", " ")[:400], m['caught_by'].replace("|", "\\|")))
+    out.append("")
 open('/verif/seeded/README.md', 'w').write("\n".join(out))
-print(len(dirs), "seeds,", n, "needed strengthening")
+print(len(dirs) - len(unreported), "reported seeds,", n, "needed strengthening;", len(unreported), "not reported")
